@@ -60,6 +60,7 @@ class ApiWorld(ClientWorld):
         self.attempts_at_close = None
         self.bytes_at_close = None
         self.resend_due = []
+        self.meta_brokers_before = {}
         if self.cfg.get("warm"):
             self.warm(*self.cfg["warm"])
 
@@ -283,6 +284,18 @@ class ApiWorld(ClientWorld):
                 elif api == rk.FIND_COORDINATOR and r.answer["error"] == 0:
                     self.coord_view[r.parsed["body"]["group"]] = r.answer["node_id"]
                     self.meta_brokers[r.answer["node_id"]] = (r.answer["host"], r.answer["port"])
+        if self.PROP == "C08":
+            n0 = getattr(self, "_att_seen", 0)
+            for a in self.net.attempts[n0:]:
+                if type(a.factory).__name__ == "_KafkaBrokerClient":
+                    bid = a.factory.node_id
+                    want = self.meta_brokers_before.get(bid)
+                    if want is not None and (a.host, a.port) != tuple(want):
+                        self.viol("metadata-view", "connection-made-to-stale-address",
+                                  "broker %d: connection attempted to %s:%s, the latest answer said %s:%s" % (
+                                      bid, a.host, a.port, want[0], want[1]))
+            self._att_seen = len(self.net.attempts)
+        self.meta_brokers_before = dict(self.meta_brokers)
         if self.close_step is not None and self.PROP == "C20":
             self.check_closed(label)
         if self.PROP == "C11":
@@ -642,8 +655,96 @@ class ApiWorld(ClientWorld):
 
     faults_other_than_delay = False
 
+    def public_view(self, topics):
+        """What the client exposes about the given topics (public attributes / methods only)."""
+        from afkak.common import TopicAndPartition
+        cl = self.client
+        out = {}
+        for t in topics:
+            parts = list(cl.topic_partitions.get(t, []))
+            keys = sorted(k.partition for k in cl.topics_to_brokers if k.topic == t)
+            leaders = {}
+            for k, bm in cl.topics_to_brokers.items():
+                if k.topic == t:
+                    leaders[k.partition] = None if bm is None else (bm.node_id, bm.host, bm.port)
+            fr = {p: cl.partition_fully_replicated(TopicAndPartition(t, p)) for p in set(parts) | set(keys)}
+            out[t] = {"partitions": parts, "routed": keys, "leaders": leaders,
+                      "error": cl.metadata_error_for_topic(t), "has": cl.has_metadata_for_topic(t), "replicated": fr}
+        return out
+
     def check_metadata_view(self, label):
-        pass
+        from afkak.common import TopicAndPartition
+        lm = getattr(self, "last_meta", None)
+        if lm is None or lm[0] != self.step or self.close_step is not None:
+            # no metadata answer in this step: remember the view so that "untouched" can be judged next time
+            self._view_before = self.public_view(self.all_topics_seen())
+            return
+        _st, asked, body = lm
+        covered = [t["topic"] for t in body["topics"]]
+        brokers = {b_["node_id"]: (b_["host"], b_["port"]) for b_ in body["brokers"]}
+        view = self.public_view(covered)
+        for t in body["topics"]:
+            name = t["topic"]
+            v = view[name]
+            want_parts = sorted(p["partition"] for p in t["partitions"])
+            if v["partitions"] != want_parts:
+                self.viol("metadata-view", "topic-partitions-differ-from-response",
+                          "topic %r: client lists partitions %r, the response said %r" % (name, v["partitions"],
+                                                                                           want_parts))
+            if v["routed"] != want_parts:
+                kind = "stale-partition-kept" if set(v["routed"]) - set(want_parts) else "partition-missing"
+                self.viol("metadata-view", "routing-table-%s" % kind,
+                          "topic %r: routing table has partitions %r, the response said %r" % (name, v["routed"],
+                                                                                                want_parts))
+            if v["error"] != t["error"]:
+                self.viol("metadata-view", "topic-error-differs-from-response",
+                          "topic %r: metadata_error_for_topic=%r, the response said %r" % (name, v["error"],
+                                                                                             t["error"]))
+            for p in t["partitions"]:
+                want = None if p["leader"] == -1 else (p["leader"],) + brokers.get(p["leader"], (None, None))
+                got = v["leaders"].get(p["partition"], "missing")
+                if got != want:
+                    self.viol("metadata-view", "leader-differs-from-response",
+                              "%s/%d: client routes to %r, the response said %r" % (name, p["partition"], got, want))
+                wr = len(p["replicas"]) == len(p["isr"])
+                if v["replicated"].get(p["partition"]) != wr:
+                    self.viol("metadata-view", "replication-state-differs-from-response",
+                              "%s/%d: partition_fully_replicated=%r, the response implies %r" % (
+                                  name, p["partition"], v["replicated"].get(p["partition"]), wr))
+            # partitions that vanished from the response must not look alive
+            for p in set(getattr(self, "_parts_ever", {}).get(name, ())) - set(want_parts):
+                if self.client.partition_fully_replicated(TopicAndPartition(name, p)):
+                    self.viol("metadata-view", "vanished-partition-still-reported-replicated",
+                              "%s/%d is not in the response any more but partition_fully_replicated() is True" % (
+                                  name, p))
+            self.__dict__.setdefault("_parts_ever", {}).setdefault(name, set()).update(want_parts)
+        # other topics untouched
+        before = getattr(self, "_view_before", {})
+        after = self.public_view([t for t in before if t not in covered])
+        for t, v in after.items():
+            if before[t] != v:
+                self.viol("metadata-view", "untouched-topic-changed",
+                          "topic %r was not in the response yet its view changed from %r to %r" % (t, before[t], v))
+        # full refresh: connections to brokers missing from it are closed
+        if not asked and body["brokers"]:
+            for c in self.net.open_conns():
+                if c.server is None or type(c.proto).__name__ != "KafkaProtocol":
+                    continue
+                if c.server.broker_id not in brokers and not c.client_closing:
+                    self.viol("metadata-view", "connection-to-removed-broker-left-open",
+                              "a full refresh listed brokers %r; the connection to broker %d is still open and not "
+                              "closing" % (sorted(brokers), c.server.broker_id))
+        self._view_before = self.public_view(self.all_topics_seen())
+
+    def all_topics_seen(self):
+        ts = set(self.meta_view)
+        ts.update(self.cfg.get("watch_topics", []))
+        return sorted(ts)
+
+    def check_addresses(self):
+        """Connections to a broker are made to the address of the latest answer that described it."""
+        for j in self.net.journal:
+            pass
 
     # ------------------------------------------------------------------ explorer protocol
     def quiescent(self):
